@@ -61,7 +61,19 @@ func makeView(ws *WalkScn, blocks []*commonmark.RootBlock) *walkView {
 		if bi < 0 {
 			bi = 0
 		}
-		return blocks[bi].AsNode()
+		n := blocks[bi].AsNode()
+		// the walk may start at any node of the tree, not only at a root block
+		for _, p := range ws.RootPath {
+			c := n.ChildCount()
+			if c == 0 {
+				break
+			}
+			if p < 0 {
+				p = -p
+			}
+			n = n.Child(p % c)
+		}
+		return n
 	}
 	switch ws.View {
 	case "default", "":
